@@ -59,6 +59,9 @@ fn snapshot(obs: &reqs::Observed) -> String {
 fn vary(bad: &str, variant: usize) -> String {
     match variant {
         1 => bad.replace('Q', "Y").replace('Z', "K").replace('X', "V"),
+        // a different offending character in a different place
+        3 => format!("!{}", bad),
+        4 => bad.chars().rev().collect(),
         _ => {
             let mut cut = bad.len() / 2;
             while !bad.is_char_boundary(cut) {
@@ -111,7 +114,7 @@ fn check(r: &mut Report, rig: &Rig, e: &EndpointD, states: &[St]) {
         let varied: Vec<&str> = e.args.iter().zip(states).filter(|(a, s)| !a.safe && **s == St::Unparsable && !a.bad.is_empty()).map(|(a, _)| a.declared).collect();
         if !varied.is_empty() {
             let base = snapshot(&obs);
-            for variant in 1..=2usize {
+            for variant in 1..=4usize {
                 let mut e2 = e.clone();
                 for (a, s) in e2.args.iter_mut().zip(states) {
                     if !a.safe && *s == St::Unparsable {
